@@ -362,7 +362,7 @@ def judge_clean_batch(res, home, split, stream, log, outp, before, oldpid, fresh
 
 
 def mon_clean_binary(ctx):
-    nb = core.scaled(48 if ctx.quick else 1600)
+    nb = core.scaled(96 if ctx.quick else 2400)
     jobs = [(ctx.b.dir, ctx.tier, lo, hi) for lo, hi in core.chunks(nb, max(1, min(core.JOBS, nb // 3)))]
     return core.pmap(clean_binary_worker, jobs, timeout=3600)
 
@@ -386,9 +386,11 @@ def plant_mess(home, rng, quid, ouid):
     """population of queue/mess: returns {relative id (bytes): kind} and the contents of deliverable files"""
     mess = home + "/queue/mess"
     for s in os.listdir(mess):
-        shutil.rmtree(mess + "/" + s, ignore_errors=True)
-        if os.path.lexists(mess + "/" + s):
-            os.unlink(mess + "/" + s)
+        p = mess + "/" + s
+        if stat.S_ISDIR(os.lstat(p).st_mode):        # never open a planted fifo or follow a planted symlink
+            shutil.rmtree(p)
+        else:
+            os.unlink(p)
     for s in range(23):
         os.mkdir("%s/%d" % (mess, s))
         os.chown("%s/%d" % (mess, s), quid, -1)
@@ -739,7 +741,7 @@ def judge_spawn_batch(res, home, which, spawn, cmds, pop, content, out, rec, st,
 
 
 def mon_spawners(ctx):
-    nb = core.scaled(40 if ctx.quick else 1200)
+    nb = core.scaled(100 if ctx.quick else 2500)
     jobs = []
     for which in ("l", "r"):
         for lo, hi in core.chunks(nb, max(1, min(core.JOBS // 2, nb // 3))):
